@@ -1,4 +1,4 @@
-//go:build verif
+//go:build verif && (p_all || p_c12)
 
 package props
 
@@ -567,5 +567,52 @@ func c12Run(c *mon.Ctx, csAny any) {
 		if c.WantSample() && (cs.Class == "carry-sum" || cs.Class == "carry-diff") && (op == "add" || op == "sub") {
 			c.Sample(map[string]any{"case": cs, "stored_a": mon.HexLimbs(ab), "stored_b": mon.HexLimbs(bb), "stored_result": mon.HexLimbs(out.E)})
 		}
+	}
+}
+
+func c12RunConc(c *mon.Ctx, seed uint64) {
+	r := concRng("C12", seed)
+	p := oracle.P
+
+	var jobs []func() string
+
+	for i := 0; i < concJobs; i++ {
+		av, bv := gen.Draw(r, p).X, gen.Draw(r, p).X
+		if bv.Sign() == 0 {
+			bv = big.NewInt(2)
+		}
+
+		a, b := mon.FE(av), mon.FE(bv)
+		wInv := oracle.FInv0(av)
+		wMul := oracle.FMul(av, bv)
+		ratio := oracle.FMul(av, oracle.FInv0(bv))
+		qr := oracle.FIsSquare(ratio)
+		wBytes := oracle.Bytes32(av)
+		jobs = append(jobs, func() string {
+			if got := mon.FEVal(field.New().Invert(*a)); got.Cmp(wInv) != 0 {
+				return fmt.Sprintf("Invert(%x) = %x", av, got)
+			}
+
+			if got := mon.FEVal(field.New().Multiply(a, b)); got.Cmp(wMul) != 0 {
+				return fmt.Sprintf("Multiply(%x,%x) = %x", av, bv, got)
+			}
+
+			e, flag := field.New().SqrtRatio(a, b)
+			lhs := oracle.FMul(oracle.FSqr(mon.FEVal(e)), bv)
+
+			if (flag == 1) != qr || (qr && lhs.Cmp(av) != 0) || (!qr && lhs.Cmp(oracle.FMul(oracle.Z, av)) != 0) {
+				return fmt.Sprintf("SqrtRatio(%x,%x) wrong", av, bv)
+			}
+
+			if !bytes.Equal(a.Bytes(), wBytes) || a.Sgn0() != uint64(av.Bit(0)) {
+				return fmt.Sprintf("Bytes/Sgn0(%x) wrong", av)
+			}
+
+			return ""
+		})
+	}
+
+	if c.RunConcurrent("field Invert / Multiply / SqrtRatio / Bytes / Sgn0", "field-concurrent", 300, jobs) {
+		c.Seen("conc", seed)
 	}
 }
